@@ -323,6 +323,7 @@ def run(w, rep, tier):
     rep.rule("C04.elementwise", "no element-wise product of two true matrices while building any Lie group/algebra operation")
     rep.rule("C04.table", "necessary for Ad_exp(x) = expm(ad_x): the series table switches at |x| < eps between the Taylor polynomial and the closed form of the same formula (shared with C06.table)")
     rep.rule("C04.direct-sum", "direct-sum ad is diagcat of the factors' ad in factor order and is n x n")
+    rep.rule("C04.adexp", "Ad_exp(x) = expm(ad_x) by composition: Ad is conjugation (C04.conj), ad represents the commutator (C04.TAB), and exp is the matrix exponential - the rules of C02 that decide d/dt exp(tx) = wedge(x) exp(tx) and the closed forms are evaluated here")
     for nm in ALGEBRAS7:
         check_algebra(w, rep, nm, w.G(nm))
     groups = [(nm, w.G(nm)) for nm in GROUPS12]
@@ -348,5 +349,14 @@ def run(w, rep, tier):
     # ... and the MRP exp it is evaluated on goes through shadow_if_necessary, which must select -r/|r|^2 (same rotation)
     from .c02 import check_shadow_invariance
     check_shadow_invariance(w, rep, RULE="C04.table")
-    rep.undecided_clause("Ad_exp(x) = expm(ad_x) (transcendental); only the series-table condition it needs is decided (C04.table)")
+    # Ad_exp(x) = expm(ad_x): with Ad = conjugation and ad = commutator representation it holds exactly when exp is the
+    # matrix exponential, which C02's rules decide on the closed forms (a self-consistent exp/log pair built on the wrong
+    # Jacobian passes every round trip and breaks exactly this clause)
+    forward_rules(w, rep, "c02", {"C02.ode": "C04.adexp", "C02.form": "C04.adexp", "C02.nilpotent": "C04.adexp"}, "quick")
+    rep.floor("C04.adexp", 20)
+    # Ad is a homomorphism in the MRP parameterisation: Ad_X = R(X) (C04.conj) and R(XY) = R(X) R(Y) through the
+    # composition formula of the MRP product (rule shared with C01.hom)
+    from .c01 import check_mrp_product
+    check_mrp_product(w, rep, tier, rule="C04.hom")
+    rep.undecided_clause("Ad_exp(x) = expm(ad_x) directly on the 6x6 / 9x9 forms (transcendental); decided by composition (C04.adexp) and the series-table condition (C04.table)")
     rep.undecided_clause("conjugation/homomorphism clauses for the DCM parameterisation (needs orthonormality of nine free symbols) and wherever the report says n/a")
